@@ -163,14 +163,40 @@ def _case(draw):
     n = draw(st.integers(4, 45))
     for _ in range(n):
         o = draw(st.sampled_from(["new", "new", "new", "newc", "newp", "store", "store", "store", "unstore", "unroot", "del",
-                                  "collect", "collect", "churn", "bulk", "chain", "box", "cycle", "rootobj"]))
+                                  "collect", "collect", "churn", "bulk", "chain", "box", "cycle", "rootobj", "cluster", "cluster"]))
         R = reachable()
         if o == "new":
             h = fresh()
             kind = draw(st.sampled_from(["node", "node", "nodea"]))
             S.new(h, kind, "m")
-            ops.append(["new", h, kind, "m"])
+            if kind == "nodea":
+                # arena object at an address aimed at a residue class of the registry (last slot, a shared home slot)
+                ops.append(["new", h, kind, "m", draw(st.sampled_from([-1, -2, -2, 0, 1, 3]))])
+            else:
+                ops.append(["new", h, kind, "m"])
             attach(h)
+        elif o == "cluster":
+            # a probe cluster in the registry (same home slot, preferably the last slot so that it wraps around)
+            # made of reachable and unreachable objects, then collections: survivors must survive the sweep's
+            # backward shifts
+            res = draw(st.sampled_from([-2, -2, 0, 2]))
+            cnt = draw(st.integers(3, 10))
+            keepers = [x for x in reachable() if S.kind[x] in ("arr", "lst")]
+            for j in range(cnt):
+                h = fresh()
+                S.new(h, "nodea", "m")
+                ops.append(["new", h, "nodea", "m", res])
+                if draw(st.booleans()):
+                    if keepers:
+                        store(keepers[0], h)
+                    elif len(S.stk) < 14:
+                        slot = min(set(range(16)) - set(S.stk))
+                        S.stk[slot] = h
+                        ops.append(["stk", slot, h])
+            ops.append(["collect"])
+            ops.append(["check"])
+            ops.append(["collect"])
+            ops.append(["check"])
         elif o == "newc":
             h = fresh()
             kind = draw(st.sampled_from(CONT))
@@ -358,6 +384,8 @@ def replay_model(case):
             S.new(op[1], op[2], op[3], op[4] if len(op) > 4 and op[2] in ("ref", "box") else None)
             if op[2] in ("ref", "box"):
                 out.append(("new %d %s %s %d" % (op[1], op[2], op[3], op[4]), None, None))
+            elif op[2] == "nodea" and len(op) > 4:
+                out.append(("new %d nodea %s %s" % (op[1], op[3], "last" if op[4] == -2 else str(op[4])), None, None))
             else:
                 out.append(("new %d %s %s" % (op[1], op[2], op[3]), None, None))
         elif o == "store":
